@@ -14,6 +14,7 @@ let () =
     | "unicode" -> C11.unicode_line, None
     | "c16" -> C16.model_line, Some C16.judge_line
     | "qword" -> C15.model_line, None
+    | "hdoc" -> C15.hdoc_line, None
     | "xp" -> Xp.model_line, None
     | "xp13" -> Xp.model_line, Some Xp.judge13
     | "xp14" -> Xp.model_line, Some Xp.judge14
